@@ -339,6 +339,35 @@ class Gen:
             return "if (%s) %s" % (self.lexpr(0), kw), kw
         if k == 22:
             return "call %s(%s, %s)" % ("subOne", self.char_lit(), self.ch(NAMES_ARR) + "(1:nMax:2)"), "call"
+        if k == 23 and self.p(0.7):
+            return self.ch([
+                ("if (%s) 110, 120, 130" % self.rexpr(1), "arithmetic_if"),
+                ("go to 110", "goto"), ("goto 120", "goto"),
+                ("go to (110, 120, 130), %s" % self.ivar(), "computed_goto"),
+                ("goto (110, 120) %s + 1" % self.ivar(), "computed_goto"),
+                ("backspace 10", "backspace"), ("backspace (unit = 10, iostat = %s)" % self.ivar(), "backspace"),
+                ("endfile (10)", "endfile"), ("endfile 11", "endfile"),
+                ("flush (10)", "flush"), ("flush (unit = 10, iostat = %s)" % self.ivar(), "flush"),
+                ("wait (10)", "wait"), ("wait (unit = 10, id = %s)" % self.ivar(), "wait"),
+                ("inquire (unit = 10, exist = %s)" % self.ch(NAMES_LOG), "inquire"),
+                ("inquire (file = %s, opened = %s, number = %s)" % (self.char_lit(), self.ch(NAMES_LOG), self.ivar()),
+                 "inquire"),
+                ("inquire (iolength = %s) %s, %s" % (self.ivar(), self.rvar(), self.aref()), "inquire"),
+                ("return", "return"),
+                ("rewind 10", "rewind"),
+                ("print '(a, i3)', %s, %s" % (self.char_lit(), self.ivar()), "print"),
+                ("read (5, *, end = 110, err = 120) %s, %s" % (self.rvar(), self.rvar()), "read"),
+                ("write (*, '(a)', advance = 'no') %s" % self.char_lit(), "write"),
+                ("write (unit = 6, fmt = 900) (aVec(%s), %s = 1, %s)" % ("iCnt", "iCnt", self.ivar()), "write"),
+                ("data_assign = 0" if False else "%s = %s" % (self.rvar(), "sfun(%s)" % self.rexpr(1)), "assign"),
+                ("call %s(%s = %s)" % ("subTwo", "argA", self.rexpr(1)), "call"),
+                ("call objA%%tbSet(%s)" % self.rexpr(1), "call"),
+                ("%s = %s%%fldB(%s)" % (self.rvar(), self.ch(NAMES_DT), self.iexpr(1)), "assign"),
+                ("%s(%s:%s) = %s" % (self.ch(NAMES_CHR), self.int_lit(), self.int_lit(), self.char_lit()), "assign"),
+                ("%s = [%s, %s]" % ("aVec(1:2)", self.rexpr(1), self.rexpr(1)) if self.std == "f2008"
+                 else "%s = (/ %s, %s /)" % ("aVec(1:2)", self.rexpr(1), self.rexpr(1)), "assign"),
+                ("%s = (/ (real(%s), %s = 1, 10) /)" % ("aVec", "iCnt", "iCnt"), "assign"),
+            ])
         return self.assign(), "assign"
 
     # ------------------------------------------------------------------ constructs
@@ -358,7 +387,7 @@ class Gen:
             lab = self.newlabel() if self.p(0.08) else None      # an unreferenced statement label
             self.emit(t, kind=k, simple_exec=True, label=lab)
             return
-        k = self.r.randrange(13)
+        k = self.r.randrange(14)
         b = budget - 1
         if k == 0:
             self.if_construct(b)
@@ -386,8 +415,30 @@ class Gen:
             self.do_concurrent(b)
         elif k == 12:
             self.do_action_term(b)
+        elif k == 13:
+            self.select_type(b)
         else:
             self.if_construct(b)
+
+    def select_type(self, b):
+        c = self.newcid()
+        nm = self.cname(["styJ"])
+        self.emit(self.ch(["select type (objA)", "select type (assocV => objA)"]), name=nm, role="open",
+                  kind="select_type", cid=c)
+        guards = ["type is (typPoint)", "class is (typPoint)", "type is (integer)", "type is (real(kind = 8))",
+                  "type is (character(len = *))"]
+        self.r.shuffle(guards)
+        for g in guards[: self.r.randrange(1, 4)]:
+            self.emit(g + ((" " + nm) if nm and self.p(0.4) else ""), role="mid", kind="type_guard", cid=c)
+            self.depth += 1
+            self.body(self.r.randrange(1, 3), b)
+            self.depth -= 1
+        if self.p(0.5):
+            self.emit("class default" + ((" " + nm) if nm and self.p(0.4) else ""), role="mid", kind="type_guard", cid=c)
+            self.depth += 1
+            self.body(1, b)
+            self.depth -= 1
+        self.emit("end select" + ((" " + nm) if nm else ""), role="close", kind="end_select_type", cid=c)
 
     def cname(self, pool):
         return self.ch(pool) if self.p(0.4) else None
@@ -591,8 +642,14 @@ class Gen:
                     self.emit("use %s" % u, kind="use")
                 else:
                     self.emit("use %s, only: %s" % (u, self.ch(["nShared", "nShared, localR => rShared"])), kind="use_only")
-        if self.p(0.8):
+        r0 = self.r.random()
+        if r0 < 0.65:
             self.emit("implicit none", kind="implicit")
+        elif r0 < 0.85:
+            self.emit(self.ch(["implicit real (a-h, o-z)", "implicit integer (i-n), real (a-h, o-z)",
+                               "implicit double precision (d), complex (z)", "implicit real(kind = 8) (a-c, x)",
+                               "implicit character(len = 4) (s), logical (l)", "implicit type(typPoint) (t)"]),
+                      kind="implicit_spec")
         self.emit("integer :: %s" % ", ".join(NAMES_INT), kind="decl")
         self.emit("real :: %s" % ", ".join(NAMES_REAL), kind="decl")
         self.emit("real, dimension(10) :: aVec, cBuf", kind="decl")
@@ -623,6 +680,47 @@ class Gen:
             self.depth -= 1
             self.emit("end type", role="close", kind="end_type", cid=c)
         self.emit("type(typPoint) :: objA", kind="decl")
+        if self.p(0.2):
+            c = self.newcid()
+            self.emit("enum, bind(c)", role="open", kind="enum", cid=c)
+            self.depth += 1
+            self.emit("enumerator :: eRed = 1, eGreen", kind="enumerator")
+            if self.p(0.5):
+                self.emit("enumerator eBlue", kind="enumerator")
+            self.depth -= 1
+            self.emit("end enum", role="close", kind="end_enum", cid=c)
+        if self.p(0.2):
+            c = self.newcid()
+            self.emit(self.ch(["type :: tBound", "type, extends(typPoint) :: tBound", "type, abstract :: tBound"]),
+                      role="open", kind="derived_type", cid=c)
+            self.depth += 1
+            self.emit("integer :: cnt = 0", kind="component")
+            if self.p(0.5):
+                self.emit("procedure(procP), pointer, nopass :: pcmp => null()", kind="proc_component")
+            self.depth -= 1
+            self.emit("contains", role="mid", kind="type_contains", cid=c)
+            self.depth += 1
+            if self.p(0.3):
+                self.emit("private", kind="binding_private")
+            self.emit("procedure :: tbGet => subOne", kind="specific_binding")
+            self.emit(self.ch(["procedure, pass(argA) :: tbSet", "procedure, nopass, public :: tbSet => subTwo",
+                               "procedure(procP), deferred :: tbSet"]), kind="specific_binding")
+            if self.p(0.6):
+                self.emit(self.ch(["generic :: tbGen => tbGet, tbSet", "generic, public :: operator(+) => tbGet",
+                                   "generic :: assignment(=) => tbSet"]), kind="generic_binding")
+            if self.p(0.4):
+                self.emit("final :: subTwo", kind="final_binding")
+            self.depth -= 1
+            self.emit("end type tBound", role="close", kind="end_type", cid=c)
+        if self.p(0.15):
+            c = self.newcid()
+            self.emit("type :: tPar(kp, np)", role="open", kind="derived_type", cid=c)
+            self.depth += 1
+            self.emit("integer, kind :: kp = 4", kind="type_param_def")
+            self.emit("integer, len :: np", kind="type_param_def")
+            self.emit("real(kind = kp) :: vals(np)", kind="component")
+            self.depth -= 1
+            self.emit("end type tPar", role="close", kind="end_type", cid=c)
         extras = [
             ("integer, parameter :: kPar = %s" % self.int_lit(), "parameter_attr"),
             ("real(kind = 8) :: dblV", "decl_kind"),
@@ -643,7 +741,25 @@ class Gen:
             ("equivalence (eqA, eqB)", "equivalence"),
             ("integer, target :: tgtI", "decl"),
             ("real, intent(in), optional :: optR", None),
+            ("allocatable :: dynB(:), dynC", "allocatable_stmt"),
+            ("asynchronous :: xPos", "asynchronous_stmt"),
+            ("volatile :: yVal, zz", "volatile_stmt"),
+            ("target :: wRk, aVec", "target_stmt"),
+            ("pointer :: ptrQ, ptrR(:)", "pointer_stmt"),
+            ("bind(c, name = 'c_blk') :: /cmnBlk/", "bind_stmt"),
+            ("procedure(procP), pointer :: ppA => null()", "procedure_decl"),
+            ("procedure(real) :: prB", "procedure_decl"),
+            ("pointer (ipt, arrP)", "cray_pointer"),
+            ("integer, dimension(2, 3) :: ishp = reshape((/ 1, 2, 3, 4, 5, 6 /), (/ 2, 3 /))", "decl_init"),
+            ("character(len = 3), dimension(2) :: cTab = (/ 'abc', 'd''f' /)", "decl_char"),
+            ("real, dimension(:, :), allocatable :: grid2", "decl"),
+            ("integer(kind = selected_int_kind(9)) :: bigI", "decl_kind"),
         ]
+        if self.unit_kind in ("subroutine", "function"):
+            extras += [("intent(in) :: argA", "intent_stmt"), ("optional :: argB", "optional_stmt"),
+                       ("value :: argB", "value_stmt")]
+        if self.unit_kind == "module":
+            extras += [("protected :: nShared", "protected_stmt")]
         if f2008_decl and self.std == "f2008":
             extras += [("real, contiguous, pointer :: cgP(:)", "contiguous"),
                        ("integer, codimension[*] :: coI", "codimension")]
@@ -661,13 +777,21 @@ class Gen:
             c2 = self.newcid()
             self.emit("subroutine procP(argA)", role="open", kind="iface_sub", cid=c2)
             self.depth += 1
+            if self.p(0.4):
+                self.emit(self.ch(["import :: typPoint", "import typPoint", "import"]), kind="import")
             self.emit("real, intent(inout) :: argA", kind="decl")
             self.depth -= 1
             self.emit("end subroutine procP", role="close", kind="end_subroutine", cid=c2)
+            if gen and self.p(0.5):
+                self.emit(self.ch(["module procedure subOne", "module procedure subOne, subTwo", "procedure subTwo"]
+                                  if self.std == "f2008" else ["module procedure subOne", "module procedure subOne, subTwo"]),
+                          kind="procedure_stmt")
             self.depth -= 1
             self.emit("end interface%s" % (" ifaceG" if gen else ""), role="close", kind="end_interface", cid=c)
         if self.p(0.3):
             self.emit("format (1x, a, i5, f10.3, 2(e12.4, 1x))", label=900, kind="format")
+        if self.p(0.12):
+            self.emit("sfun(zz) = zz * 2.0 + %s" % self.real_lit(), kind="stmt_function")
 
     def exec_part(self, n=None):
         n = n if n is not None else max(1, int(self.r.randrange(2, 7) * self.size))
@@ -690,6 +814,9 @@ class Gen:
         self.unit_kind = kind
         self.spec_part()
         self.emit("real :: argA, argB", kind="decl")
+        if internal_ok and self.p(0.15):
+            self.emit(self.ch(["entry altE(argA)", "entry altE"]) if kind == "subroutine"
+                      else self.ch(["entry altE(argA)", "entry altE(argA) result(resW)"]), kind="entry")
         self.exec_part()
         if self.p(0.3):
             self.emit("return", kind="return", simple_exec=True)
@@ -719,6 +846,8 @@ class Gen:
         if self.p(0.5):
             self.emit("private", kind="access")
             self.emit("public :: nShared, rShared", kind="access")
+        if self.p(0.3):
+            self.emit("protected :: nShared", kind="protected_stmt")
         if self.p(0.4):
             c2 = self.newcid()
             self.emit("type, public :: tBase", role="open", kind="derived_type", cid=c2)
